@@ -2,7 +2,10 @@
 use std::fmt;
 use std::num::NonZeroUsize;
 use std::panic::{RefUnwindSafe, UnwindSafe};
+#[cfg(not(may_verif))]
 use std::sync::atomic::{AtomicBool, AtomicUsize, Ordering};
+#[cfg(may_verif)]
+use crate::verif::atomic::{AtomicBool, AtomicUsize, Ordering};
 use std::sync::mpsc::{RecvError, SendError, TryRecvError};
 use std::sync::Arc;
 use std::thread::Thread;
@@ -13,7 +16,10 @@ use crate::likely::{likely, unlikely};
 use crate::scheduler::get_scheduler;
 use crate::yield_now::{yield_now, yield_with};
 
+#[cfg(not(may_verif))]
 use may_queue::spsc::Queue;
+#[cfg(may_verif)]
+use crate::verif::SpscQueue as Queue;
 
 struct Park<'a, T> {
     queue: &'a InnerQueue<T>,
